@@ -87,7 +87,8 @@ package specs
 // ---- time -------------------------------------------------------------------------------------
 //@ ghost lastNowUnix() int64
 //@ func time.Now
-//@ assigns nothing
+//@ assigns lastNowUnix()
+//@ records lastNowUnix() == result.Unix()
 // Unix seconds of a time value; the most recent reading is kept in ghost state. The clock is
 // assumed not to be set before 1970.
 //@ func time.(Time).Unix
